@@ -8,7 +8,7 @@ HERE = os.path.dirname(os.path.abspath(__file__))
 
 
 def run_call(repo, call, timeout=60):
-    env = dict(os.environ, PYTHONPATH=repo)
+    env = dict(os.environ, PYTHONPATH=repo + os.pathsep + os.path.dirname(HERE))
     py = PY if os.path.exists(PY) else sys.executable
     p = subprocess.run([py, os.path.join(HERE, "replay_child.py")], input=json.dumps(call), capture_output=True, text=True,
                        env=env, timeout=timeout)
